@@ -212,6 +212,29 @@ def bh_value(kind: str, cur: bytes | None, prev_hashes: list, future_text: str |
     raise ValueError(kind)
 
 
+def _stamps(root):
+    """(inode, mtime_ns) of every non-directory below root (lstat, real functions).  Directory mtimes are deliberately not
+    compared: a call that creates and removes its own temp file has left names, bytes and modes exactly as they were, and
+    demanding an untouched directory timestamp as well would ask for more than the property states."""
+    out = {}
+    lst = seam.real("lstat")
+    for dp, dns, fns in os.walk(root):
+        for n in fns:
+            p_ = os.path.join(dp, n)
+            try:
+                st = lst(p_)
+                out[p_[len(root):]] = (st.st_ino, st.st_mtime_ns)
+            except OSError:
+                pass
+    return out
+
+
+def _stamps_changed(before, root):
+    with seam.passthrough():
+        now = _stamps(root)
+    return sorted(k for k in set(before) | set(now) if before.get(k) != now.get(k))
+
+
 def _ident(path):
     try:
         st = seam.real("lstat")(path)
@@ -263,6 +286,8 @@ def _run_history(case, stats, root, target, TARGET):
         snap0 = fsmodel.snapshot(root)
         node = snap0.get(TARGET)
         ident0 = _ident(target)
+        with seam.passthrough():
+            stamps0 = _stamps(root)
         cur = node[2] if node and node[0] == "f" else None
         cur_h = text_hash(cur) if cur is not None else None
         if cur_h:
@@ -344,6 +369,9 @@ def _run_history(case, stats, root, target, TARGET):
                 V("inert", f"{kind} returned {out} but the file system changed: {d}", k)
             elif outside_writes:
                 V("inert-outside", f"{kind} returned {out} but wrote OUTSIDE the sandbox: {outside_writes[:3]}", k)
+            elif _stamps_changed(stamps0, root):
+                V("inert-touched", f"{kind} returned {out}; names, bytes and modes are unchanged but these entries were rewritten or touched "
+                                   f"(inode/mtime changed): {_stamps_changed(stamps0, root)[:4]}", k)
             elif _ident(target) != ident0:
                 V("inert-touched", f"{kind} returned {out}; the target's bytes are the same but it was rewritten or touched "
                                    f"(inode/mtime {ident0} -> {_ident(target)})", k)
